@@ -44,6 +44,13 @@ func NewController(p Interface, claims *Claims, config Config, options *Options)
 	if err != nil {
 		return nil, err
 	}
+	// A webhook with a kind or a certificate type that is not one of the known
+	// spellings would silently never be called.
+	for _, wh := range options.GetWebhooks() {
+		if err := wh.validate(); err != nil {
+			return nil, err
+		}
+	}
 	wt := config.WrapTransport
 	if wt == nil {
 		wt = httptransport.NoopWrapper()
